@@ -439,7 +439,7 @@ fn table() -> Vec<Entry> {
         e!("process::fork", SYS_fork, Id, I32, || num(unsafe { rusl::process::fork() })),
         e!("process::clone", SYS_clone, Id, I32, || num(unsafe { rusl::process::clone(&CloneArgs::new(CloneFlags::empty())) })),
         e!("process::clone3", SYS_clone3, Id, U64, || num(unsafe { rusl::process::clone3(&mut Clone3Args::new(CloneFlags::empty())) })),
-        e!("process::execve", SYS_execve, NoReturn, Unit, || {
+        e!("process::execve", SYS_execve, Zero, Unit, || {
             let one: [*const u8; 1] = [core::ptr::null()];
             let opts = [("null", core::ptr::null()), ("nonnull", one.as_ptr())];
             unit(unsafe { rusl::process::execve(p1(), pick("arg_v", &opts, core::ptr::null()), pick("env_p", &opts, core::ptr::null())) })
@@ -912,17 +912,13 @@ fn judge(sp: &Spec, script: &[i64], horizon: usize, call: &dyn Fn() -> (Got, Vec
             r.violation(&key("wrong-errno"), format!("{at}: kernel result {v} must give Err with errno {}, got errno {c:?}", -v), case());
         }
         (true, Got::Ok(x)) => {
-            if sp.infallible {
-                // cannot happen: error values are not forced on infallible signatures
-                r.outcome("infallible/error-discarded");
-            } else {
-                r.outcome("VIOLATION/error-reported-as-success");
-                r.violation(
-                    &key("error-reported-as-success"),
-                    format!("{at}: the last kernel result was {v} (errno {}) after answers [{}], but the wrapper reported Ok({x:?})", -v, show_script(&calls)),
-                    case(),
-                );
-            }
+            r.outcome("VIOLATION/error-reported-as-success");
+            let why = if sp.infallible { " — the signature has no error channel, the kernel's error is dropped" } else { "" };
+            r.violation(
+                &key("error-reported-as-success"),
+                format!("{at}: the last kernel result was {v} (errno {}) after answers [{}], but the wrapper reported Ok({x:?}){why}", -v, show_script(&calls)),
+                case(),
+            );
         }
         (false, Got::Err(c)) => {
             r.outcome("VIOLATION/success-reported-as-error");
@@ -964,7 +960,7 @@ fn judge(sp: &Spec, script: &[i64], horizon: usize, call: &dyn Fn() -> (Got, Vec
                 } else if sp.ty == Ty::Unit {
                     r.outcome(if v == 0 { "ok/unit-zero" } else { "ok/unit-nonzero-success" })
                 } else {
-                    r.outcome("ok/value-outside-result-type(ok-only)")
+                    r.outcome("success-value-truncated-by-result-type")
                 }
             }
         },
@@ -1208,42 +1204,48 @@ fn bounds(thorough: bool) -> Bounds {
 
 fn values(e: &Entry, thorough: bool) -> Vec<i64> {
     let b = bounds(thorough);
+    // generated sentinel entries: in the quick tier the plain middle range 4097..=65536 is left to the base entry
+    let small_max = if e.sel.is_some() && !thorough { 4096 } else { b.small_max };
     let mut v: Vec<i64> = Vec::new();
-    let succ = e.dom != Dom::NoReturn;
+    let succ = true;
     // simplest first: 0 and the errno-sized successes, then the errors, then the band below the
     // errno range, then the large patterns, then the rest of the small range
     if succ {
         v.extend(0..=4095);
     }
-    if !e.infallible {
-        v.extend((1..=4095).map(|x: i64| -x));
-    }
+    // (also for the signatures without an error channel: a kernel error must not come back as success)
+    v.extend((1..=4095).map(|x: i64| -x));
     if succ {
         v.extend((b.neg_lo..=-4096).rev());
         let mut extra: Vec<i64> = vec![i32::MAX as i64];
-        // single-bit patterns and their neighbours that fit 31 bits: for every result type
+        // single-bit patterns and their neighbours
         for k in 12..=30 {
             extra.extend([(1i64 << k) - 1, 1i64 << k]);
         }
-        if matches!(e.ty, Ty::U32 | Ty::I64 | Ty::U64) {
-            extra.extend([1i64 << 31, 0xFFFF_F000, 0xFFFF_FFFF]);
+        // beyond 31 bits, for EVERY wrapper (an int-typed result cannot carry them: then only Ok-ness and
+        // the single issue are judged, outcome success-value-truncated-by-result-type)
+        extra.extend([1i64 << 31, 0xFFFF_F000, 0xFFFF_FFFF]);
+        for k in 32..=62 {
+            extra.extend([(1i64 << k) - 1, 1i64 << k, -(1i64 << k), -(1i64 << k) - 1]);
         }
-        if matches!(e.ty, Ty::I64 | Ty::U64) {
-            for k in 32..=62 {
-                extra.extend([(1i64 << k) - 1, 1i64 << k, -(1i64 << k), -(1i64 << k) - 1]);
+        extra.extend([
+            0x7fff_ffff_f000,
+            isize::MAX as i64,
+            i64::MIN,
+            i64::MIN + 4095,
+            i64::MIN + 4096,
+            -(1i64 << 31),
+            -(1i64 << 31) - 1,
+            -65536,
+            -8192,
+            -4098,
+        ]);
+        // success values whose LOW HALF is an errno pattern (-k as 32 bits), for every errno k, under
+        // several high halves: a wrapper that truncates the register before testing it takes these for errors
+        for hi in LOW_HALF_ERRNO_HIGH_HALVES {
+            for k in 1..=4095u64 {
+                extra.push(((hi << 32) | (0x1_0000_0000 - k)) as i64);
             }
-            extra.extend([
-                0x7fff_ffff_f000,
-                isize::MAX as i64,
-                i64::MIN,
-                i64::MIN + 4095,
-                i64::MIN + 4096,
-                -(1i64 << 31),
-                -(1i64 << 31) - 1,
-                -65536,
-                -8192,
-                -4098,
-            ]);
         }
         if e.dom == Dom::Addr {
             extra.extend((1..=256i64).map(|k| k << 12));
@@ -1265,15 +1267,18 @@ fn values(e: &Entry, thorough: bool) -> Vec<i64> {
         }
         let mut seen = std::collections::HashSet::new();
         for x in extra {
-            let in_ranges = (0..=b.small_max).contains(&x) || (b.neg_lo..=-1).contains(&x);
+            let in_ranges = (0..=small_max).contains(&x) || (b.neg_lo..=-1).contains(&x);
             if !in_ranges && seen.insert(x) {
                 v.push(x);
             }
         }
-        v.extend(4096..=b.small_max);
+        v.extend(4096..=small_max);
     }
     v
 }
+
+/// high halves under which every low-half errno pattern 0xffff_ffff-k+1 (k = 1..=4095) is forced
+const LOW_HALF_ERRNO_HIGH_HALVES: [u64; 5] = [0, 1, 0x7fff_ffff, 0x8000_0000, 0xffff_fffe];
 
 /// dup2/dup3 only: `-EBUSY` k times, then a final answer (horizon k + 8 issues)
 const EBUSY_KS: &[usize] = &[1, 2, 3, 7, 8, 9, 15, 16, 17, 63, 64, 65, 127, 128, 129, 255, 256, 257, 1000, 4096];
@@ -1472,14 +1477,15 @@ fn c09(args: &Args) -> Report {
     let bd = bounds(thorough);
     r.rule = format!(
         "for each of {n_entries} invocation entries ({} scanned exported rusl functions that issue a system call, {} excluded with a reason): the real wrapper is called once with harmless arguments, \
-         its system call is suppressed and the raw result forced to v, for EVERY v in: 0..={} ; every error -1..=-4095 (fallible signatures); the band just below the errno range {}..=-4096; i32::MAX; \
-         2^k-1 and 2^k for k=12..=30; and — where the result type can carry them — 2^31, 0xFFFFF000, u32::MAX (u32/64-bit results), 2^k-1, 2^k, -2^k, -2^k-1 for k=32..=62, 0x7fff_ffff_f000, isize::MAX, i64::MIN(+4095,+4096), \
-         -2^31(-1), -65536, -8192, -4098 (64-bit results), page-aligned addresses k<<12 (k=1..=256) and ten high addresses up to 0xffff_ffff_ffff_f000 (mmap); execve only the errors (it does not return on success); \
-         get_pid / clock_get_real_time / clock_get_monotonic_time only the non-error values (no error channel in the signature). dup2/dup3 additionally -EBUSY×k for k in {:?} followed by each of {:?} (horizon k+8 issues; the result must be the decoding of the last answer given — giving up at an EBUSY with Err(EBUSY) is accepted). \
+         its system call is suppressed and the raw result forced to v, for EVERY v in: 0..={} ; every error -1..=-4095 (also for get_pid / clock_get_real_time / clock_get_monotonic_time, whose signatures have no error channel, and every non-error class also for execve); the band just below the errno range {}..=-4096; i32::MAX; \
+         2^k-1 and 2^k for k=12..=30; 2^31, 0xFFFFF000, u32::MAX, 2^k-1, 2^k, -2^k, -2^k-1 for k=32..=62, 0x7fff_ffff_f000, isize::MAX, i64::MIN(+4095,+4096), -2^31(-1), -65536, -8192, -4098; \
+         every success value whose LOW 32 bits are an errno pattern (2^32-k for every k=1..=4095) under the high halves 0, 1, 0x7fffffff, 0x80000000, 0xfffffffe (a value an int-typed result cannot carry is judged for Ok-ness and the single issue only: outcome success-value-truncated-by-result-type); \
+         page-aligned addresses k<<12 (k=1..=256) and ten high addresses up to 0xffff_ffff_ffff_f000 (mmap). \
+         dup2/dup3 additionally -EBUSY×k for k in {:?} followed by each of {:?} (horizon k+8 issues; the result must be the decoding of the last answer given — giving up at an EBUSY with Err(EBUSY) is accepted). \
          ARGUMENT SHAPES: {n_shape_entries} of the entries repeat the full sweep with EQUAL arguments (#eq: old == new descriptor, same path twice, src fd == dst fd, epoll fd == watched fd, rem == req) for every scanned wrapper \
          with two descriptor or two path parameters (+ setpgid, nanosleep), and with ZERO-LENGTH buffers / empty vectors / zero counts (#len0) for every scanned wrapper with a slice parameter (+ sendmsg, recvmsg, listen, futex_wake, io_uring_enter, copy_file_range). \
          Every issue of every case must be the system call the entry names (else unexpected-syscall). \
-         SENTINELS: {n_sentinel_entries} generated entries `<wrapper>#<param>=<label>` repeat the full sweep with ONE scalar parameter ({n_sentinel_params} parameters, taken from the signature scan in build.rs) set to each special value of its type: \
+         SENTINELS: {n_sentinel_entries} generated entries `<wrapper>#<param>=<label>` repeat the sweep (quick tier: without the plain middle range 4097..=65536, everything else included) with ONE scalar parameter ({n_sentinel_params} parameters, taken from the signature scan in build.rs) set to each special value of its type: \
          i32/PidT/OffT {{-1,0,MAX,MIN}}, u32/u64/usize/UidT/GidT {{0,1,MAX}}, bool, Fd/NonNegativeI32 {{0,MAX}}, NonZeroUsize {{1,MAX}}, bit-flag types {{empty, all bits}}, Option {{None, Some(0/zero), Some(MAX)}}, every variant of the small enums, \
          ClockId raw -1/MAX, null/non-null argv/envp, TimeSpec zero/max; an unclassified parameter type or an invocation that ignores its selector is a machinery failure. \
          ARGUMENT-SIZE LADDER: {n_ladder} invocations of wrappers taking a slice / count / length (every scanned wrapper with a slice parameter, plus copy_file_range, mmap, munmap, listen, futex_wake, io_uring_enter, sendmsg/recvmsg iov and control sizes), \
